@@ -25,6 +25,7 @@ GLUE = [
     "SELECT a FROM t WHERE a = -1\n",
     "SELECT DISTINCT(a) FROM t\n",
     "SELECT DISTINCT(a), b FROM t\n",
+    "SELECT DISTINCT(a)FROM t\n",
     "SELECT a FROM t WHERE a <> 1 AND b != 2\n",
     "SELECT a FROM t WHERE a = 1 -- c\n",
     "SELECT a FROM t WHERE a IS NULL --c\nAND b = 1\n",
